@@ -108,3 +108,41 @@ theorem C16_no_two_fields_one_name (e : Mode × Name × Defn) (he : e ∈ allDef
   exact wf_assign_names_nodup true e.2.2 vts l hn (by simpa [namesVL] using hd) h
 
 end Ubx
+
+namespace Ubx
+
+/-- the nominal instance of definition `d` (table `mode`) under class/id `k`, at the level of the attribute walk:
+    built with no keyword supplied (every attribute nominal, every counted group empty), then its payload parsed back
+    with the same definition — both succeed, the parse consumes the whole payload and exposes the same names.
+    The two key/value messages (CFG-VALGET GET, CFG-VALSET SET) are not built from keywords; their nominal instance is
+    the header with an empty key list. -/
+def nominalOK (ctx : Ctx) (mode : Mode) (d : Defn) (k : Bytes) : Bool :=
+  let cls := k.take 1
+  let id := k.drop 1
+  let cg := walkCtx ctx cls id mode true (.attrs [])
+  if cg.cfgval then
+    match wItems (walkCtx ctx cls id mode true (.payload [0, 0, 0, 0])) [] d ⟨0, [0, 0, 0, 0], []⟩ with
+    | .ok st => st.off == 4
+    | .error _ => false
+  else
+    match wItems cg [] d ⟨0, [], []⟩ with
+    | .error _ => false
+    | .ok st =>
+      match wItems (walkCtx ctx cls id mode true (.payload st.payload)) [] d ⟨0, st.payload, []⟩ with
+      | .error _ => false
+      | .ok st' => st'.off == st.payload.length && st'.env.map (·.1) == st.env.map (·.1)
+
+/-- a fixed repeat count above 64 somewhere in the definition (RXM-PMP-V0's 504 user-data bytes): the model's
+    environment is an association list, which makes kernel evaluation of such an instance quadratic (minutes, gigabytes);
+    these definitions' nominal instances are evaluated natively by the correspondence check instead -/
+def heavyItem : Item → Bool
+  | .group _ (.fixed n) _ => n > 64
+  | _ => false
+
+/-- the per-definition obligation of `C16_nominal_instances` -/
+def nominalEntryOK (ctx : Ctx) (ex : List (Mode × Name × Name)) (e : Mode × Name × Defn) : Bool :=
+  excused ex e.1 e.2.1 0x6e6f6d696e616c2d696e7374616e6365 ||   -- "nominal-instance"
+  e.2.2.any heavyItem ||
+  (idsOf ctx e.1 e.2.1).all (fun k => nominalOK ctx e.1 e.2.2 k)
+
+end Ubx
